@@ -309,11 +309,48 @@ Fixpoint shadow_run (sh : smap resource) (os : list obs) (i : Z) : Z * Z :=
         if d =? 0 then shadow_run sh' r (i + 1) else (i, d)
   end.
 
+(* "as they are in the current state": the listener ports and addresses of an applied VirtualServer /
+   TransportServer are a function of the object and of the CURRENT GlobalConfiguration (the listeners that
+   passed validation; the event carries them).  Evaluated on the implementation's own resources, without the
+   model's state: 0 = current, 6..10 = the stale attribute as in [stale_field] *)
+Definition listener_attrs_stale (g : option (list listener)) (r : resource) : Z :=
+  match r with
+  | RVS x =>
+      let e := build_vs_cfg g (vc_vs x) [] [] in
+      if negb (vc_http_port x =? vc_http_port e) || negb (String.eqb (vc_http4 x) (vc_http4 e)) ||
+         negb (String.eqb (vc_http6 x) (vc_http6 e)) then 8
+      else if negb (vc_https_port x =? vc_https_port e) then 9
+      else if negb (String.eqb (vc_https4 x) (vc_https4 e)) || negb (String.eqb (vc_https6 x) (vc_https6 e)) then 10
+      else 0
+  | RTS x =>
+      if is_listener_ts (tc_ts x) then
+        let '(p, a4, a6) := match ts_listener g (tc_ts x) with
+                            | Some l => (l_port l, l_ipv4 l, l_ipv6 l)
+                            | None => (0, ""%string, ""%string)
+                            end in
+        if negb (tc_port x =? p) then 6
+        else if negb (String.eqb (tc_ipv4 x) a4) || negb (String.eqb (tc_ipv6 x) a6) then 7 else 0
+      else 0
+  | RIng _ => 0
+  end.
+
+Fixpoint listeners_current_run (o : objs) (es : list event) (os : list obs) (i : Z) : Z * Z :=
+  match es, os with
+  | e :: er, ob :: or_ =>
+      let o' := apply_event o e in
+      match filter (fun d => negb (d =? 0)) (map (listener_attrs_stale (o_gc o')) (ob_res ob)) with
+      | d :: _ => (i, d)
+      | [] => listeners_current_run o' er or_ (i + 1)
+      end
+  | _, _ => (0, 0)
+  end.
+
 Definition c03_case (id : Z) (c : cfg) (es : list event) (os : list obs) (final : obs)
            (alts : list (list event * obs)) : list Z :=
   let '(mask, first, s) := compare_run c init es os 1 0 0 in
   let '(step_, code) := shadow_run [] os 1 in
-  [id; mask; first; step_; code; Z.of_nat (List.length es)].
+  let '(lstep, lcode) := listeners_current_run objs0 es os 1 in
+  [id; mask; first; step_; code; Z.of_nat (List.length es); lstep; lcode].
 
 (* ---- C04: composition, evaluated on the implementation's own resources ---- *)
 
